@@ -390,8 +390,8 @@ func ParseResultLine(line string) (vegeta.Result, error) {
 }
 
 // SameResult is an equality on results written for the harness, independent of Result.Equal: all scalar
-// fields equal, timestamps the same instant, bodies equal as byte strings (nil = empty), headers both nil
-// or both non-nil with the same keys and, key by key, the same values in the same order.
+// fields equal, timestamps the same instant, bodies equal as byte strings (nil = empty), headers
+// with the same keys and, key by key, the same values in the same order.
 func SameResult(a, b *vegeta.Result) bool {
 	if a.Attack != b.Attack || a.Seq != b.Seq || a.Code != b.Code || a.Latency != b.Latency || a.BytesOut != b.BytesOut ||
 		a.BytesIn != b.BytesIn || a.Error != b.Error || a.Method != b.Method || a.URL != b.URL {
@@ -403,7 +403,8 @@ func SameResult(a, b *vegeta.Result) bool {
 	if string(a.Body) != string(b.Body) {
 		return false
 	}
-	if (a.Headers == nil) != (b.Headers == nil) || len(a.Headers) != len(b.Headers) {
+	// (whether a nil and an empty map are "equal" is left to Result.Equal, which the callers also ask)
+	if len(a.Headers) != len(b.Headers) {
 		return false
 	}
 	for k, va := range a.Headers {
